@@ -51,6 +51,9 @@ pub struct RevPlan {
     pub info: bool,
     /// predictor of the cross-reference stream (with a Flate or LZW filter): 0, 2, 10..=15
     pub xref_predictor: u8,
+    /// numbers freed by this revision get generation 65535 (never to be reused) instead of the
+    /// previous generation + 1
+    pub free_max_gen: bool,
 }
 
 #[derive(Clone, Debug, PartialEq)]
@@ -65,6 +68,9 @@ pub struct History {
     /// the whole history is an encrypted document (standard security handler, RC4, empty user
     /// password): (revision, key bytes); the encryption dictionary is an object of the first section
     pub encrypt: Option<(u8, usize)>,
+    /// the first revision also defines one object with a far higher number (sparse numbering:
+    /// /Size exceeds the length of the file in bytes)
+    pub sparse: bool,
 }
 
 fn filt_name(f: StmFilter) -> &'static str {
@@ -104,10 +110,10 @@ impl History {
                     .collect();
                 json!({"mentions": m, "xref_stream": r.xref_stream, "w_extra": r.w_extra, "w0_zero": r.w0_zero, "cuts": r.cuts, "xref_filter": filt_name(r.xref_filter),
                     "objstm_filter": filt_name(r.objstm_filter), "trailing_ws": r.trailing_ws, "two_objstms": r.two_objstms, "move_root": r.move_root,
-                    "free_old_root": r.free_old_root, "reuse_xref_num": r.reuse_xref_num, "stale_member": r.stale_member, "length_ref": r.length_ref, "info": r.info, "xref_predictor": r.xref_predictor})
+                    "free_old_root": r.free_old_root, "reuse_xref_num": r.reuse_xref_num, "stale_member": r.stale_member, "length_ref": r.length_ref, "info": r.info, "xref_predictor": r.xref_predictor, "free_max_gen": r.free_max_gen})
             })
             .collect();
-        json!({"junk": hex(&self.junk), "nvals": self.nvals, "revs": revs, "relaxed_reuse": self.relaxed_reuse, "encrypt": self.encrypt.map(|(r, k)| json!([r, k]))})
+        json!({"junk": hex(&self.junk), "nvals": self.nvals, "revs": revs, "relaxed_reuse": self.relaxed_reuse, "encrypt": self.encrypt.map(|(r, k)| json!([r, k])), "sparse": self.sparse})
     }
     pub fn from_json(j: &J) -> Option<History> {
         let mut revs = vec![];
@@ -144,10 +150,12 @@ impl History {
                 length_ref: r.get("length_ref").and_then(|x| x.as_u64()).unwrap_or(0) as u8,
                 info: r.get("info").and_then(|x| x.as_bool()).unwrap_or(false),
                 xref_predictor: r.get("xref_predictor").and_then(|x| x.as_u64()).unwrap_or(0) as u8,
+                free_max_gen: r.get("free_max_gen").and_then(|x| x.as_bool()).unwrap_or(false),
             });
         }
         Some(History { junk: unhex(j.get("junk")?.as_str()?)?, nvals: j.get("nvals")?.as_u64()? as u32, revs, relaxed_reuse: j.get("relaxed_reuse").and_then(|x| x.as_bool()).unwrap_or(false),
-            encrypt: j.get("encrypt").and_then(|e| Some((e.get(0)?.as_u64()? as u8, e.get(1)?.as_u64()? as usize))) })
+            encrypt: j.get("encrypt").and_then(|e| Some((e.get(0)?.as_u64()? as u8, e.get(1)?.as_u64()? as usize))),
+            sparse: j.get("sparse").and_then(|x| x.as_bool()).unwrap_or(false) })
     }
 }
 
@@ -164,6 +172,7 @@ enum St {
 /// (freeing an undefined number, compressing a reused one) are adjusted, so that every sub-history
 /// produced by shrinking still compiles.
 const FILE_ID: &[u8] = b"0123456789abcdef";
+const SPARSE_NUM: u32 = 6000;
 
 pub fn compile(h: &History) -> DocSpec {
     let mut next: u32 = 3 + h.nvals;
@@ -178,6 +187,11 @@ pub fn compile(h: &History) -> DocSpec {
         let mut mentions = r.mentions.clone();
         if ri == 0 {
             mentions.retain(|(n, _)| *n != 1 && *n != 2);
+            if h.sparse {
+                // one object far above the others: every auxiliary number follows it
+                mentions.push((SPARSE_NUM, Action::Direct(Body::Plain(Val::dict(vec![("Sparse", Val::Int(4242))])))));
+                next = SPARSE_NUM + 1;
+            }
             mentions.push((1, Action::Direct(Body::Plain(catalog(2, 0)))));
             mentions.push((2, Action::Direct(Body::Plain(Val::dict(vec![("Type", Val::name("Pages")), ("Kids", Val::Arr(vec![])), ("Count", Val::Int(0))])))));
         } else {
@@ -198,6 +212,9 @@ pub fn compile(h: &History) -> DocSpec {
         for (n, a) in mentions {
             let st = status.get(&n).cloned().unwrap_or(St::Undefined);
             let g = gen.get(&n).cloned().unwrap_or(0);
+            if st == St::Free && g == 65535 {
+                continue; // generation 65535: the number stays free for good
+            }
             match a {
                 Action::Direct(mut body) => {
                     if let Body::Stream { data, len_ref, .. } = &mut body {
@@ -227,8 +244,9 @@ pub fn compile(h: &History) -> DocSpec {
                 }
                 Action::Free => {
                     if st == St::InUse && g < 60000 {
-                        gen.insert(n, g + 1);
-                        slots.insert(n, Slot::Free { gen: g + 1 });
+                        let ng = if r.free_max_gen { 65535 } else { g + 1 };
+                        gen.insert(n, ng);
+                        slots.insert(n, Slot::Free { gen: ng });
                         status.insert(n, St::Free);
                     }
                 }
@@ -381,12 +399,14 @@ pub fn gen_history(rng: &mut Rng, tier: Tier) -> History {
             length_ref: if !long_small && rng.chance(1, 3) { 1 + rng.below(2) as u8 } else { 0 },
             info: !long_small && rng.chance(1, 3),
             xref_predictor: if rng.coin() { *rng.pick(&[12u8, 12, 10, 11, 13, 14, 15, 2]) } else { 0 },
+            free_max_gen: rng.chance(1, 4),
         });
     }
     let junk = if rng.chance(1, 5) { (0..rng.usize(64)).map(|_| *rng.pick(b"xyz \n012")).collect() } else { vec![] };
     let relaxed_reuse = rng.chance(1, 4);
     let encrypt = if rng.chance(1, 5) { Some(*rng.pick(&[(2u8, 5usize), (3, 5), (3, 16), (4, 16)])) } else { None };
-    History { junk, nvals, revs, relaxed_reuse, encrypt }
+    let sparse = !long_small && rng.chance(1, 12);
+    History { junk, nvals, revs, relaxed_reuse, encrypt, sparse }
 }
 
 /// make every written value unique where its kind allows, so that a stale answer is attributable
@@ -619,6 +639,14 @@ impl C02 {
             if progress {
                 continue;
             }
+            if best.sparse {
+                let mut c = best.clone();
+                c.sparse = false;
+                if try_c(c, &mut best, &mut detail, &mut budget) {
+                    progress = true;
+                    continue;
+                }
+            }
             if best.encrypt.is_some() {
                 let mut c = best.clone();
                 c.encrypt = None;
@@ -702,7 +730,7 @@ impl Check for C02 {
         CheckInfo {
             id: "C02",
             level: "exploration",
-            rule: "one run = one update history of 1-4 (quick) / 1-8 (thorough) revisions over 3-12 value object numbers written by the harness's independent writer (classic tables with arbitrary subsection splits; xref streams with arbitrary /Index splits, /W widths incl. width-0 type field, optional filter (stored-block Flate, ASCIIHex, LZW, ASCIIHex over Flate with /DecodeParms [null <<..>>]) and predictor (TIFF 2, PNG 10-15); objects direct, in one or two object streams with or without filter and trailing white space, freed with generation+1, reused; /Size growth; moving /Root; trailers with and without /Info; one history in five written RC4-encrypted (revision 2, 3 or 4 of the standard security handler, empty user password) by the harness's own MD5/RC4 implementation, which the self-test checks against the /O and /U entries of the two RC4 corpus files), opened after every append (every crash point that keeps whole revisions) strict+uncached and tolerant+cached; every number below /Size is resolved and compared with the model 'newest mention wins'; the trailer (/Root, /ID, /Size, /Info, presence of /Prev) must be that of the newest section. Non-trivial = some revision overrides an earlier mention; distinct = hash of the history",
+            rule: "one run = one update history of 1-4 (quick) / 1-8 (thorough) revisions over 3-12 value object numbers written by the harness's independent writer (classic tables with arbitrary subsection splits; xref streams with arbitrary /Index splits, /W widths incl. width-0 type field, optional filter (stored-block Flate, ASCIIHex, LZW, ASCIIHex over Flate with /DecodeParms [null <<..>>]) and predictor (TIFF 2, PNG 10-15); objects direct, in one or two object streams with or without filter and trailing white space, freed with generation+1, reused; /Size growth; moving /Root; trailers with and without /Info; sparse numbering (an object 6000 in a file of a few kB); frees with generation 65535; one history in five written RC4-encrypted (revision 2, 3 or 4 of the standard security handler, empty user password) by the harness's own MD5/RC4 implementation, which the self-test checks against the /O and /U entries of the two RC4 corpus files), opened after every append (every crash point that keeps whole revisions) strict+uncached and tolerant+cached; every number below /Size is resolved and compared with the model 'newest mention wins'; the trailer (/Root, /ID, /Size, /Info, presence of /Prev) must be that of the newest section. Non-trivial = some revision overrides an earlier mention; distinct = hash of the history",
             assumptions: vec![
                 "trusted base: the harness's writer; every written file is cross-checked by the harness's strict reader (offsets, section chain, newest-first merge) before it is used, disagreement is a harness error".into(),
                 "crash points are revision boundaries; a torn final append, hybrid-reference files and sections violating the generation rules are outside the statement".into(),
